@@ -1,5 +1,16 @@
 // C07 / C08: tulz::ThreadPool. Owner thread program (start / clear / stop / restart) comes from the macro OWNER (a string of ops);
 // the schedule is symbolic; accesses to the racy flags m_isRunning / m_isFinished are scheduling points ("racy" configuration).
+#ifdef VF_NATIVE
+// real libstdc++ headers must not be parsed under `#define private public`
+#include <chrono>
+#include <list>
+#include <tuple>
+#include <type_traits>
+#include <mutex>
+#include <condition_variable>
+#include <thread>
+#include <tulz/threading/Runnable.h>
+#endif
 #define private public
 #include <tulz/threading/ThreadPool.h>
 #include <tulz/threading/Thread.h>
@@ -37,6 +48,12 @@ struct Task : Runnable {
   }
 };
 extern "C" void vf_on_park(unsigned) {}
+#ifdef HB_MONITOR
+// C15: every byte of the pool object and of every object the pool allocates (worker threads, their runnables, thread state) and of the
+// submitted tasks is a candidate for the watched location of the happens-before monitor
+extern "C" void __vf_hb_track(void *p);
+extern "C" void __vf_new_hook(void *p) { __vf_hb_track(p); }
+#endif
 static ThreadPool *g_pool;
 // owner program: OP_k in {1: start(task), 2: clear(), 3: stop(), 4: wait until all submitted tasks have run, 0: nothing}
 #ifndef OP0
@@ -55,6 +72,8 @@ static int next_task;
 template<int OP> static inline void owner_op() {
   if constexpr (OP == 1) { int id = next_task++; g_pool->start(new Task(id)); __vf_check(g_pool->getThreadCount() <= MAXTHREADS, "C08: the number of worker threads never exceeds the configured maximum"); }
   else if constexpr (OP == 2) { g_pool->clear(); }
+  else if constexpr (OP == 5) { g_pool->update(); __vf_check(g_pool->getThreadCount() <= MAXTHREADS, "C08: the number of worker threads never exceeds the configured maximum"); }
+  else if constexpr (OP == 6) { (void) g_pool->getActiveThreadCount(); (void) g_pool->getThreadCount(); (void) g_pool->isRunning(); (void) g_pool->getMaxThreadCount(); (void) g_pool->getExpiryTimeout(); }
   else if constexpr (OP == 4) {   // wait until every task submitted so far has run: without stop()/clear() each must be executed exactly once (else: deadlock detector)
     __vf_wait_until(&done_count, next_task);
     for (int i = 0; i < NTASK; i++) if (i < next_task) __vf_check(entered[i] == 1 && exited[i] == 1, "C07: unless the pool is stopped or cleared first every task is executed exactly once");
@@ -70,7 +89,13 @@ template<int OP> static inline void owner_op() {
 static ThreadPool pool;   // global: a local would live in a per-thread array of the resumable function
 extern "C" void vf_thread(int) {
   g_pool = &pool;
-  pool.setMaxThreadCount(MAXTHREADS); pool.setExpiryTimeout(-1);
+#ifdef HB_MONITOR
+  __vf_hb_track(&pool);
+#endif
+#ifndef EXPIRY
+#define EXPIRY (-1)
+#endif
+  pool.setMaxThreadCount(MAXTHREADS); pool.setExpiryTimeout(EXPIRY);
   owner_op<OP0>(); owner_op<OP1>(); owner_op<OP2>(); owner_op<OP3>();
   // the program always ends with stop()
   g_pool->stop(); stop_returned = 1;
